@@ -38,29 +38,22 @@
 (*    nodes that have sub-segments, ".metadata" exactly when it was        *)
 (*    present, "default": null is dropped, ".rules" is never emitted       *)
 (***************************************************************************)
-EXTENDS Integers, Sequences, FiniteSets, TLC, Json
+EXTENDS Integers, Sequences, FiniteSets, TLC
 
 CONSTANTS
     FixedNames,     \* strings usable as fixed segment keys
-    VarKeys,        \* strings "$label" usable as variable segment keys
+    VarKeys,        \* strings "$label" usable as variable segment keys (disjoint from address segments)
     BadNames,       \* strings that are not valid segment names
-    Patterns,       \* pattern names; contains "none"
-    BadPatterns,    \* subset of Patterns: regexps that do not compile
-    PatMatch,       \* [Patterns \ BadPatterns -> SUBSET Alphabet]: segments matched
-    SelfMenu,       \* subset of {"absent", "empty", "junk"}
-    PropsMenu,      \* set of props records (see above)
-    RootMenu,       \* set of nodes the root may be initialised with
-    MetaKeys,       \* metadata keys
-    Alphabet,       \* address segment strings (disjoint from VarKeys)
-    MaxAddrLen,     \* addresses have 1..MaxAddrLen segments
-    MaxNodes,       \* max number of non-root nodes of a generated chart
-    MaxDepth,       \* max path length of a generated chart
-    AllowDefects,   \* TRUE: also generate charts with exactly one validity defect
-    EmitMin,        \* emit a CASE for charts with at least that many non-root nodes
-    TxMenu, QMenu   \* sequences of sets of template ids (opaque to the chart)
+    BadPatterns,    \* pattern names whose regexp does not compile
+    PatMatch,       \* [valid pattern names other than "none" -> set of segment strings matched]
+    MetaKeys        \* metadata keys
 
-VARIABLES c,        \* the chart under construction
-          nd        \* number of validity defects of c (derived; keeps the guard of Next cheap)
+(* This module holds only constant-level operators (no variables), so that  *)
+(* other specifications can EXTEND or INSTANCE it (C29: a posting is        *)
+(* accepted by a schema iff Find(chart, source).accepted and                *)
+(* Find(chart, destination).accepted; default metadata of a created        *)
+(* account = Find(chart, address).meta).  ChartGen.tla adds the generator,  *)
+(* the theorems TLC checks and the case emission.                           *)
 
 Keys == FixedNames \cup VarKeys \cup BadNames
 
@@ -170,97 +163,4 @@ CanonNode(ch, p) ==
                 kv    |-> CanonKV(ch[p].props.kv),
                 rules |-> FALSE]]
 Canon(ch) == [p \in DOMAIN ch |-> CanonNode(ch, p)]
-
----------------------------------------------------------------------------
-(* Addresses and schema-level round trip                                   *)
-
-Addresses == UNION {[1..n -> Alphabet] : n \in 1..MaxAddrLen}
-
-NNodes(ch) == Cardinality(DOMAIN ch) - 1
-
-\* templates / query templates are opaque values carried next to the chart
-TxOf(ch) == TxMenu[(NNodes(ch) % Len(TxMenu)) + 1]
-QOf(ch)  == QMenu[((NNodes(ch) + Depth(ch)) % Len(QMenu)) + 1]
-Schema(ch)    == [chart |-> ch, tx |-> TxOf(ch), queries |-> QOf(ch)]
-RoundTrip(s)  == [chart |-> Canon(s.chart), tx |-> s.tx, queries |-> s.queries]
-Meaning(s)    == [find |-> [a \in Addresses |-> Find(s.chart, a)], tx |-> s.tx, queries |-> s.queries]
-
----------------------------------------------------------------------------
-(* Generation: add one node at a time; every valid chart with at most      *)
-(* MaxNodes nodes and depth <= MaxDepth is reachable through valid charts. *)
-
-Init == /\ c \in {(<< >> :> r) : r \in RootMenu}
-        /\ nd = Cardinality(Defects(c))
-
-Add(p, k, n) ==
-    /\ nd = 0                                   \* charts with a defect are terminal
-    /\ NNodes(c) < MaxNodes
-    /\ Len(p) < MaxDepth
-    /\ Append(p, k) \notin DOMAIN c
-    /\ c' = (Append(p, k) :> n) @@ c
-    /\ nd' = Cardinality(Defects(c'))
-    /\ nd' <= (IF AllowDefects THEN 1 ELSE 0)
-
-Next == \E k \in Keys, s \in SelfMenu, pr \in PropsMenu, pt \in Patterns :
-            \E p \in DOMAIN c : Add(p, k, [self |-> s, pat |-> pt, props |-> pr])
-
-vars == <<c, nd>>
-Spec == Init /\ [][Next]_vars
-
----------------------------------------------------------------------------
-(* Theorems checked by TLC on every generated chart                        *)
-
-TypeOK ==
-    /\ nd = Cardinality(Defects(c))
-    /\ << >> \in DOMAIN c
-    /\ \A p \in DOMAIN c : Len(p) > 0 => SubSeq(p, 1, Len(p) - 1) \in DOMAIN c    \* prefix closed
-
-\* design-level C30: the schema means the same after marshal/unmarshal
-ThmRoundTripMeaning == Valid(c) => Meaning(RoundTrip(Schema(c))) = Meaning(Schema(c))
-ThmCanonFind  == Valid(c) => \A a \in Addresses : Find(Canon(c), a) = Find(c, a)
-ThmCanonValid == Valid(c) => Valid(Canon(c))
-ThmCanonIdem  == Valid(c) => Canon(Canon(c)) = Canon(c)
-\* determinism: an address denotes at most one node, and Find is exactly "that node is an account"
-ThmUnique == Valid(c) => \A a \in Addresses :
-                 LET M == MatchSet(c, a)
-                     f == Find(c, a)
-                 IN  /\ Cardinality(M) <= 1
-                     /\ f.accepted <=> \E q \in M : IsAccount(c, q)
-                     /\ \A q \in M : IsAccount(c, q) => f.meta = DefaultMeta(c[q])
-                     /\ ~f.accepted => f.meta = NoMeta
-\* every declared leaf is an account; every declared account is reachable by some address of the
-\* alphabet unless a pattern excludes all of it (not asserted) -- asserted: fixed-only paths accept
-ThmFixedPathAccepted == Valid(c) => \A p \in DOMAIN c :
-                 (p # << >> /\ Len(p) <= MaxAddrLen /\ (\A i \in 1..Len(p) : p[i] \in FixedNames \cap Alphabet)
-                  /\ IsAccount(c, p)) => Find(c, p).accepted
-
----------------------------------------------------------------------------
-(* Case emission (Flow A): the chart, its validity, its normal form and    *)
-(* the accepted addresses with their default metadata.  Rejected addresses *)
-(* are the complement within Addresses (printed once by the header).       *)
-
-NodeSet(ch) == {[p |-> p, self |-> ch[p].self, pat |-> ch[p].pat, props |-> ch[p].props] : p \in DOMAIN ch}
-
-CaseOf(ch) ==
-    IF Valid(ch)
-    THEN LET F   == [a \in Addresses |-> Find(ch, a)]
-             Acc == {a \in Addresses : F[a].accepted}
-         IN  [kind |-> "chart", valid |-> TRUE, nodes |-> NodeSet(ch), canon |-> NodeSet(Canon(ch)),
-              defects |-> << >>,
-              accepted |-> {[a |-> a, meta |-> F[a].meta] : a \in Acc},
-              shadowed |-> {a \in Addresses \ Acc : WalkVarOnly(ch, << >>, a)},
-              tx |-> TxOf(ch), queries |-> QOf(ch)]
-    ELSE [kind |-> "chart", valid |-> FALSE, nodes |-> NodeSet(ch), canon |-> << >>,
-          defects |-> Defects(ch), accepted |-> << >>, shadowed |-> << >>,
-          tx |-> TxOf(ch), queries |-> QOf(ch)]
-
-Header == [kind |-> "header", addresses |-> Addresses, alphabet |-> Alphabet,
-           patmatch |-> [pt \in (Patterns \ BadPatterns) \ {"none"} |-> PatMatch[pt]],
-           badpatterns |-> BadPatterns, fixed |-> FixedNames, varkeys |-> VarKeys, badnames |-> BadNames,
-           maxnodes |-> MaxNodes, maxdepth |-> MaxDepth, maxaddrlen |-> MaxAddrLen]
-
-Emit == NNodes(c) >= EmitMin => PrintT(<<"CASE", ToJson(CaseOf(c))>>)
-
-ASSUME Alphabet \cap VarKeys = {} /\ "none" \in Patterns /\ BadPatterns \subseteq Patterns
-ASSUME PrintT(<<"CASE", ToJson(Header)>>)
 =============================================================================
